@@ -594,6 +594,10 @@ package resolver
 //@   abstract
 //@   nosafety all pre
 //@   assert at call middleware/resolver.pickFallbackResponse#1: exhausted(1) || (resp.Rcode == dns.RcodeNameError && (len(responseErrors) > 2 || level < 2))
+//@   # C11: an exchange error is counted against the zone's servers only while this lookup's own context is still
+//@   # live; once it has expired or was cancelled the lookup reports that (request-local) error, so one caller's
+//@   # expiry is never turned into the shared "all servers failed" verdict that fails the callers collapsed onto it
+//@   assert at append#2: lastret("internal/contextutil.EffectiveError") == nil
 //@
 //@ # ---- C13: the two load-shedding sentinels (no free in-flight resolution slot / zone at its in-flight quota) are
 //@ # built wrapping middleware.ErrResolutionShed, the cause IsRequestLocalResolutionError recognises: a shed lookup is
